@@ -76,6 +76,22 @@ def install():
     builtins._verif_cb = cb
     builtins._verif_fbval = fbval
     hs.pauseTiming()
+    # wpilib's DriverStation singleton creates its /FMSInfo publishers once per process and never re-creates
+    # them.  After NetworkTableInstance._reset() those handles are stale, and because handle numbers start
+    # again from zero they would alias publishers of the *next* robot (observed: FMSControlData written into
+    # /robot/<feedback key>).  Allocate the singleton's handles far above anything one robot life uses, so
+    # that after a reset they refer to nothing.
+    import ntcore
+
+    inst = ntcore.NetworkTableInstance.getDefault()
+    dummies = [inst.getIntegerTopic(f"/verif-dummy/{i}").publish() for i in range(4000)]
+    wpilib.DriverStation.refreshData()
+    wpilib.DriverStation.isDSAttached()
+    for d in dummies:
+        d.close()
+    del dummies
+    gc.collect()
+    inst._reset()
     _G.installed = True
 
 
